@@ -149,13 +149,34 @@ class proceed:
         self.fn = fn
 
     def __enter__(self):
-        self.curr = HandlerCollection.current.get() or HandlerCollection([])
-        self.interactor, new = self.curr.proceed(self.fn)
-        self.reset = HandlerCollection.current.set(new)
+        self.outer = HandlerCollection.current.get()
+        curr = self.outer or HandlerCollection([])
+        self.interactor, self.inner = curr.proceed(self.fn)
+        HandlerCollection.current.set(self.inner)
+        self.suspended = False
+        self.interactor.context = self
         return self.interactor
 
+    def suspend(self):
+        """The function is a generator and is about to yield.
+
+        Whoever runs until it is resumed is not running inside this call:
+        give them back the collection they had.
+        """
+        if not self.suspended:
+            self.suspended = True
+            HandlerCollection.current.set(self.outer)
+
+    def resume(self):
+        """The generator is running again, possibly for a different caller."""
+        if self.suspended:
+            self.suspended = False
+            self.outer = HandlerCollection.current.get()
+            HandlerCollection.current.set(self.inner)
+
     def __exit__(self, typ, exc, tb):
-        HandlerCollection.current.reset(self.reset)
+        if not self.suspended:
+            HandlerCollection.current.set(self.outer)
         self.interactor.exit()
 
 
